@@ -104,11 +104,16 @@ fn oracle(c: &Case, out: &RunOut) -> (bool, String, usize, usize) {
     // prefix sums of head lengths of the first k requests
     let mut head_sum = vec![0usize];
     for it in &c.items {
-        if let Item::Req { h, .. } = it {
+        if let Some((h, _)) = item_lens(it) {
             head_sum.push(head_sum.last().unwrap() + h);
         }
     }
-    let in_bound = (MAXP + 2) * (MAXB + c.r) + PMAX;
+    // request bytes a connection may hold: unparsed input (< MAX_BUFFER_SIZE + one read), the
+    // request-body channel (< payload limit + what one decode pass pushes out of a full read_buf)
+    // and the heads of queued requests (all heads of the case, capped by what MAX_PIPELINED_MESSAGES
+    // decode passes can take)
+    let heads_total = *head_sum.last().unwrap();
+    let in_bound = 2 * (MAXB + c.r) + PMAX + heads_total.min(MAXP * (MAXB + c.r));
     let out_bound = c.wbs + max_enc(c) + 2 * max_head(c);
     let (mut max_in, mut max_out) = (0usize, 0usize);
     let mut why = String::new();
@@ -123,7 +128,9 @@ fn oracle(c: &Case, out: &RunOut) -> (bool, String, usize, usize) {
         max_in = max_in.max(in_mem);
         max_out = max_out.max(out_mem);
         if in_mem > in_bound && why.is_empty() {
-            why = format!("poll {i}: {in_mem} request bytes held (unparsed + queued + read ahead of the handler) > {in_bound}");
+            why = format!(
+                "poll {i}: {in_mem} request bytes held (taken from the socket - heads of dispatched requests - body bytes delivered to handlers) > {in_bound} = 2*(MAX_BUFFER_SIZE + read) + payload limit + queued heads"
+            );
         }
         if out_mem >= out_bound && why.is_empty() {
             why = format!(
@@ -140,6 +147,7 @@ fn oracle(c: &Case, out: &RunOut) -> (bool, String, usize, usize) {
             let too_long = match it {
                 Item::Req { h, .. } => *h >= MAXB + c.r,
                 Item::Endless => true,
+                Item::Chunked { .. } => false,
             };
             if too_long {
                 let earlier_respond = c.handlers.iter().take(k).all(|h| h.iter().any(|a| matches!(a, HAct::Respond(_)))) && c.handlers.len() >= k;
@@ -155,8 +163,8 @@ fn oracle(c: &Case, out: &RunOut) -> (bool, String, usize, usize) {
                 }
                 break;
             }
-            if let Item::Req { h, b } = it {
-                off += h + b.unwrap_or(0);
+            if let Some((_, t)) = item_lens(it) {
+                off += t;
             }
         }
     }
@@ -280,7 +288,7 @@ fn gen_case(rng: &mut Rng, thorough: bool) -> Case {
         3 | 4 => {
             // huge body, slow / stalled / steady consumer
             kind_name = "huge-body";
-            let blen = *rng.pick(&[1usize, 1000, PMAX - 1, PMAX, PMAX + 1, 100_000, 300_000, 1_000_000]);
+            let blen = *rng.pick(&[1usize, 1000, PMAX - 1, PMAX, PMAX + 1, 100_000, 300_000, 1_000_000, 4_000_000]);
             items.push(Item::Req { h: fit_head(60, Some(blen)), b: Some(blen) });
             let mut h = vec![];
             match rng.below(4) {
@@ -319,7 +327,7 @@ fn gen_case(rng: &mut Rng, thorough: bool) -> Case {
             let total = 60 + blen + 18;
             let mut left = total + 50;
             while left > 0 && rounds.len() < 40 {
-                let add = (*rng.pick(&[1usize, 500, 8192, 40_000, 140_000, 400_000])).min(left);
+                let add = (*rng.pick(&[1usize, 500, 8192, 40_000, 140_000, 400_000, 1_000_000])).min(left);
                 left -= add;
                 rounds.push(Round { add, wr: wr_script(rng, 0), ..Default::default() });
             }
